@@ -865,8 +865,116 @@ def rule_sorted(ctx):
     return res.finish(1)
 
 
+def rule_f1(ctx):
+    """`f1_score` is documented as the F-beta score for beta = 1: whatever kind of matrix it is called on, it is `f_score(1)`.
+    A path that computes something else (a macro average over one-vs-all splits for more than two classes, say) makes the two
+    entry points disagree on the inputs that take it."""
+    res = RuleResult("R-C05-f1", "every path of ConfusionMatrix::f1_score returns self.f_score(1)")
+    F = ctx.facts()
+    fns = fns_named(F, "f1_score", adt="ConfusionMatrix")
+    if not fns:
+        res.missing_anchor("ConfusionMatrix::f1_score")
+    for fn in fns:
+        c = fn["crate"]
+        r = Render(c)
+        key = fn_key(fn)
+        res.instance(key)
+
+        def tails(e):
+            e = strip(e)
+            if e.get("k") == "Block" and e.get("e") is not None:
+                return tails(e["e"])
+            if e.get("k") == "If" and e.get("else") is not None:
+                return tails(e["then"]) + tails(e["else"])
+            if e.get("k") == "Match":
+                return [t for a in e["arms"] for t in tails(a["body"])]
+            return [e]
+        ts = tails(fn["body"]) + [y["e"] for y in walk(fn["body"]) if y.get("k") == "Ret" and y.get("e") is not None]
+
+        def is_f1(e):
+            e = peel_refs(e)
+            return e.get("k") == "MethodCall" and e["name"] == "f_score" and peel_refs(e["recv"]).get("name") == "self" and len(e["args"]) == 1 and _const_float(c, e["args"][0]) == 1
+        good = [t for t in ts if is_f1(t)]
+        other = [t for t in ts if not is_f1(t)]
+        if good and not other:
+            res.ok()
+        elif good and other:
+            res.violate("%s : f1-paths-disagree" % key, "one path returns `self.f_score(1.0)`, another `%s`: for the inputs that take the second path f1_score() is not the F-beta score for beta = 1" % r.e(other[0])[:60], fn_loc(fn, other[0].get("ln")))
+        else:
+            res.undecided("%s : f1-form" % key, "f1_score does not forward to f_score (fail closed): `%s`" % r.e(ts[0])[:50] if ts else "no value", fn_loc(fn))
+    return res.finish(1)
+
+
+def rule_union(ctx):
+    """The class list of a confusion matrix is the union of the labels of both sides.  A merge of the two label lists that
+    takes elements from one side only while a condition holds (`next_if`) has to drain what is left of that side afterwards:
+    otherwise labels that sort after the last label of the other side are not in the list, and the samples carrying them are
+    in no cell."""
+    res = RuleResult("R-C05-union", "combined_labels leaves no label of either side behind (an iterator consumed conditionally is drained)")
+    F = ctx.facts()
+    fns = [f for f in F.all_fns() if f["d"]["krate"] == "linfa" and f["d"]["name"] == "combined_labels" and "tests" not in f["d"]["path"]]
+    if not fns:
+        res.missing_anchor("Labels::combined_labels")
+    for fn in fns:
+        c = fn["crate"]
+        r = Render(c)
+        key = fn_key(fn)
+        res.instance(key)
+        iters = {}
+        for y in walk(fn["body"]):
+            if y.get("k") == "LetStmt" and y.get("init") is not None and y["pat"].get("k") == "Bind" and any(z.get("k") == "MethodCall" and z["name"] in ("peekable", "into_iter", "iter") for z in [peel_refs(y["init"])]):
+                iters[y["pat"]["local"]] = y["pat"]["name"]
+        bad = None
+        for loc, nm in iters.items():
+            uses = [y for y in walk(fn["body"]) if y.get("k") == "MethodCall" and peel_refs(y["recv"]).get("local") == loc]
+            other_uses = [y for y in walk(fn["body"]) if y.get("k") == "Path" and y.get("local") == loc]
+            cond_only = [u for u in uses if u["name"] in ("next_if", "next_if_eq", "peek", "peek_mut")]
+            if uses and len(cond_only) == len(uses) and len(other_uses) == len(uses) and any(u["name"].startswith("next_if") for u in uses):
+                bad = (nm, uses[0])
+        if bad:
+            res.violate("%s : merge-drops-remainder:%s" % (key, bad[0]), "`%s` is consumed only through next_if / next_if_eq: what is left of it when the loop over the other side ends is never taken - labels that sort after the other side's last label are missing from the class list" % bad[0], fn_loc(fn, bad[1].get("ln")))
+        else:
+            res.ok()
+    return res.finish(1)
+
+
+def rule_centred(ctx):
+    """Pearson correlation: the covariance is the product of the *centred* data with itself.  The moment form
+    X^T X - n m m^T is equal in exact arithmetic and cancels catastrophically when |mean| is large against the spread, while
+    the standard deviations in the denominator stay accurate: the coefficients leave [-1, 1]."""
+    res = RuleResult("R-C05-centred", "the covariance behind pearson_correlation is a product of centred data, not a difference of raw moments")
+    F = ctx.facts()
+    fns = [f for f in F.all_fns() if f["d"]["krate"] == "linfa" and f["d"]["name"] == "pearson_correlation" and "tests" not in f["d"]["path"]]
+    if not fns:
+        res.missing_anchor("pearson_correlation")
+    for fn in fns:
+        c = fn["crate"]
+        r = Render(c)
+        key = fn_key(fn)
+        res.instance(key)
+        params = {b["local"] for p_ in fn["params"] for b in pat_bindings(p_)}
+
+        def raw(e):
+            e = peel_refs(e)
+            while e.get("k") == "MethodCall" and e["name"] in ("t", "view", "reversed_axes", "to_owned", "clone"):
+                e = peel_refs(e["recv"])
+            return e.get("k") == "Path" and e.get("local") in params
+        bad = None
+        for y in walk(fn["body"]):
+            if y.get("k") == "Binary" and y["op"] == "-":
+                for z in walk(y["l"]):
+                    if z.get("k") == "MethodCall" and z["name"] == "dot" and raw(z["recv"]) and z["args"] and raw(z["args"][0]):
+                        if any(w.get("k") == "MethodCall" and w["name"] == "dot" for w in walk(y["r"])):
+                            bad = y
+        if bad is not None:
+            res.violate("%s : covariance-from-raw-moments" % key, "`%s`: the product of the uncentred data minus the outer product of the means - two numbers of size n*mean^2 whose difference is the covariance; with |mean| >> spread nothing of it survives" % r.e(bad)[:70], fn_loc(fn, bad.get("ln")))
+        else:
+            res.ok()
+    return res.finish(1)
+
+
 def rules(tier):
     from . import c02
     # the class list of a confusion matrix over a dataset is the key set of its label-count cache: shared with C02
     from . import bitorder
-    return [rule_clip, rule_sorted, bitorder.make_rule("R-C05-bitorder", {"linfa"}, 1, "the linfa crate (probabilities `Pr`, scores of the metrics)"), rule_delegate, rule_degree, rule_orient, rule_roles, rule_count, rule_median, rule_twice, rule_symmetric, rule_reset, c02.rule_counted]
+    return [rule_f1, rule_union, rule_centred, rule_clip, rule_sorted, bitorder.make_rule("R-C05-bitorder", {"linfa"}, 1, "the linfa crate (probabilities `Pr`, scores of the metrics)"), rule_delegate, rule_degree, rule_orient, rule_roles, rule_count, rule_median, rule_twice, rule_symmetric, rule_reset, c02.rule_counted]
